@@ -16,11 +16,11 @@ Ltac thread_only I Hth Hpc Hm :=
   | intros; cbn; discriminate
   | cbn; intros ? ? ? E; inversion E; subst; clear E ].
 
-Lemma step_InCall : forall g t th h g',
-  Inv g -> nth_error (threads g) t = Some th -> t_pc th = InCall h ->
+Lemma step_InCall : forall g t th h abn g',
+  Inv g -> nth_error (threads g) t = Some th -> t_pc th = InCall h abn ->
   step true g t = Some g' -> misuse g' = false -> Inv g'.
 Proof.
-  intros g t th h g' I Hth Hpc Hs Hm. unfold step in Hs. rewrite Hth, Hpc in Hs.
+  intros g t th h abn g' I Hth Hpc Hs Hm. unfold step in Hs. rewrite Hth, Hpc in Hs.
   inversion Hs; subst g'; clear Hs.
   thread_only I Hth Hpc Hm.
 Qed.
@@ -158,7 +158,7 @@ Proof.
   assert (Hdone : h_done hk = (h_refs hk =? 0) && (h_calls hk =? 0))
     by (destruct (inv_hook g (invH g I) cur hk Hx); auto).
   unfold cwalk_nil in Hm |- *.
-  destruct k as [dst| |recv| |wdst|c2|h1|]; unfold same_second in Hm |- *; try destruct c2 as [c2|];
+  destruct k as [dst| |recv abn| |wdst|c2|h1|]; unfold same_second in Hm |- *; try destruct c2 as [c2|];
   eapply (G1 g _ t th _ cur hk hk c cl (cl_mu None (cl_h None cl)) I Hth); g1_side Hpc Hx Hc;
   try (unfold client_ok; cbn; exact Htg);
   try (unfold wtok; cbn; lia);
@@ -206,12 +206,12 @@ Proof.
   try (unfold wclose; cbn; rewrite Hpc; lia).
 Qed.
 
-Lemma step_CWalk_end_call : forall g t th recv c cur hk g',
-  Inv g -> nth_error (threads g) t = Some th -> t_pc th = CWalk (KCall recv) c cur ->
+Lemma step_CWalk_end_call : forall g t th recv abn c cur hk g',
+  Inv g -> nth_error (threads g) t = Some th -> t_pc th = CWalk (KCall recv abn) c cur ->
   get_hook g cur = Some hk -> forwarded cur hk = false ->
   step true g t = Some g' -> misuse g' = false -> Inv g'.
 Proof.
-  intros g t th recv c cur hk g' I Hth Hpc Hx Hf Hs Hm. unfold step in Hs. rewrite Hth, Hpc, Hx in Hs.
+  intros g t th recv abn c cur hk g' I Hth Hpc Hx Hf Hs Hm. unfold step in Hs. rewrite Hth, Hpc, Hx in Hs.
   destruct (h_mu hk) eqn:Hmu; [discriminate|]. rewrite Hf in Hs. inversion Hs; subst g'; clear Hs.
   destruct (cwalk_end_facts g t th _ c cur hk I Hth Hpc Hx Hmu Hf)
     as (cl & Hc & Hch & Hcm & Hrel & Htg & R1 & Hd & Racc & Rcal & Rclo & Rs & Rc0).
@@ -331,7 +331,7 @@ Proof.
   destruct (get_client g c) as [cl|] eqn:Hc; [|discriminate].
   destruct (c_mu cl) eqn:Hcmu; [discriminate|]. inversion Hs; subst g'; clear Hs.
   unfold clock_step in Hm |- *.
-  destruct k as [dst| |recv| |wdst|c2|h1|].
+  destruct k as [dst| |recv abn| |wdst|c2|h1|].
   8: { destruct (c_h cl) as [h|] eqn:Hh; [|thread_only I Hth Hpc Hm].
        g0_walk I Hth Hpc Hc (cl_mu (Some t) cl). }
   - destruct (c_released cl) eqn:Hr; [thread_only I Hth Hpc Hm|].
